@@ -218,7 +218,8 @@ func (ps *cparser) expr(minPrec int) CExpr {
 
 func (ps *cparser) unary() CExpr {
 	t := ps.peek()
-	if t.kind == "op" && (t.s == "!" || t.s == "-") {
+	if t.kind == "op" && (t.s == "!" || t.s == "-" || t.s == "*") {
+		// a leading * is a pointer type (argument of unbox/isboxed/tyof) or a dereference
 		ps.next()
 		return &CUnary{t.s, ps.unary()}
 	}
